@@ -194,16 +194,22 @@ func ruleRRCManager(c *Ctx, r *Report) {
 	if fn := c.need(r, rule3, "(*internal/rrc.Manager).Reserve"); fn != nil {
 		r.Sites += len(fn.Blocks)
 		var mul *ssa.BinOp
-		for _, b := range fn.Blocks {
-			for _, in := range b.Instrs {
-				if bo, ok := in.(*ssa.BinOp); ok && bo.Op == token.MUL && isFieldLoad(bo.X, tRRCPath, "receivedBytes") {
-					mul = bo
+		k := int64(0)
+		for _, g := range c.unitFuncs(fn) {
+			for _, b := range g.Blocks {
+				for _, in := range b.Instrs {
+					bo, ok := in.(*ssa.BinOp)
+					if !ok || bo.Op != token.MUL {
+						continue
+					}
+					for _, pr := range [][2]ssa.Value{{bo.X, bo.Y}, {bo.Y, bo.X}} {
+						kk, isC := constInt(pr[1])
+						if isC && allLeaves(c.OriginsIP(pr[0], 0), func(v ssa.Value) bool { return isFieldLoad(v, tRRCPath, "receivedBytes") }) {
+							mul, k = bo, kk
+						}
+					}
 				}
 			}
-		}
-		k := int64(0)
-		if mul != nil {
-			k, _ = constInt(mul.Y)
 		}
 		r.Check(mul != nil && k == 3, rule3, short(fn)+":factor", c.pos(fn.Pos()), "limit = 3 x received bytes", fmt.Sprintf("the anti-amplification factor is %d, RFC 9146 6 / RFC 9853 allow three times the received bytes", k))
 		// sentBytes grows only after the limit test passed
